@@ -24,11 +24,9 @@ Lemma handler_untouched ae cenc has_clen has_rule cmd :
   h_wrapped r = 0 -> h_cenc r = cenc /\ h_has_clen r = has_clen.
 Proof.
   unfold handler.
-  destruct (negb (has_token ae GZIP || has_token ae BR)); cbn; [auto|].
-  destruct (negb (bytes_eqb cenc []) && negb (bytes_eqb cenc IDENTITY)); cbn; [auto|].
-  destruct has_rule; cbn; [|auto].
-  destruct (cmd =? 0); [destruct (has_token ae GZIP); cbn; [discriminate|auto]|].
-  destruct (cmd =? 1); [destruct (has_token ae BR); cbn; [discriminate|auto]|auto].
+  destruct (has_token ae GZIP) eqn:G; destruct (has_token ae BR) eqn:B;
+  destruct (bytes_eqb cenc []) eqn:E1; destruct (bytes_eqb cenc IDENTITY) eqn:E2;
+  destruct has_rule; destruct (cmd =? 0) eqn:C0; destruct (cmd =? 1) eqn:C1; cbn; intros H; try discriminate H; auto.
 Qed.
 Lemma handler_already_encoded ae cenc has_clen has_rule cmd :
   cenc <> [] -> cenc <> IDENTITY ->
@@ -64,4 +62,239 @@ Proof.
     subst ch. destruct IH as [I1 I2]; [unfold blen in *; cbn in *; lia|lia|]. cbn [concat app]. auto.
   - cbn [fst] in H. rewrite total_cons in H. unfold total in H. cbn [concat] in H.
     unfold blen in *. rewrite firstn_length in H. cbn [length] in H. lia.
+Qed.
+
+(* ---------- the streaming filter over an abstract codec ---------- *)
+Section CodecProofs.
+  Variable W : Type.
+  Variable wwrite : W -> bytes -> W * bytes.
+  Variable wflush wclose : W -> W * bytes.
+  Variable w0 : W.                                  (* a fresh compressor *)
+  Variable decomp : bytes -> option bytes.          (* the client's decompressor *)
+
+  Inductive wop := OW (b : bytes) | OF | OC.        (* Write / Flush / Close *)
+  Definition wstep (w : W) (op : wop) : W * bytes :=
+    match op with OW b => wwrite w b | OF => wflush w | OC => wclose w end.
+  Fixpoint wexec (w : W) (ops : list wop) : W * bytes :=
+    match ops with
+    | [] => (w, [])
+    | op :: r => let '(w1, o1) := wstep w op in let '(w2, o2) := wexec w1 r in (w2, o1 ++ o2)
+    end.
+  Definition writes (ops : list wop) : bytes :=
+    concat (map (fun op => match op with OW b => b | _ => [] end) ops).
+  Definition no_close (ops : list wop) : Prop := Forall (fun op => op <> OC) ops.
+
+  (* the codec round-trips: whatever is written, with flushes anywhere, then closed, decompresses to the
+     concatenation of the writes *)
+  Hypothesis codec_ok : forall ops, no_close ops -> decomp (snd (wexec w0 (ops ++ [OC]))) = Some (writes ops).
+  (* a flush always emits something (gzip: sync marker; brotli after data: a padded meta-block) *)
+  Hypothesis flush_emits : forall w, snd (wflush w) <> [].
+
+  Lemma wexec_app w a : forall b,
+    wexec w (a ++ b) = let '(w1, o1) := wexec w a in let '(w2, o2) := wexec w1 b in (w2, o1 ++ o2).
+  Proof.
+    revert w. induction a as [|op r IH]; intros w b; cbn [app wexec].
+    - destruct (wexec w b). reflexivity.
+    - destruct (wstep w op) as [w1 o1]. rewrite IH. destruct (wexec w1 r) as [w2 o2].
+      destruct (wexec w2 b) as [w3 o3]. rewrite app_assoc. reflexivity.
+  Qed.
+  Lemma write_all_wexec ps : forall w, write_all W wwrite w ps = wexec w (map OW ps).
+  Proof.
+    induction ps as [|p r IH]; intros w; [reflexivity|]. cbn [write_all map wexec wstep].
+    destruct (wwrite w p) as [w1 o1]. rewrite IH. reflexivity.
+  Qed.
+  Lemma writes_app a b : writes (a ++ b) = writes a ++ writes b.
+  Proof. unfold writes. rewrite map_app, concat_app. reflexivity. Qed.
+  Lemma writes_OW ps : writes (map OW ps) = concat ps.
+  Proof. unfold writes. rewrite map_map, map_id. reflexivity. Qed.
+  Lemma no_close_OW ps : no_close (map OW ps).
+  Proof. unfold no_close. rewrite Forall_map. apply Forall_forall. intros x _. discriminate. Qed.
+
+  Let fread := filter_read W wwrite wflush wclose.
+  Let cons_ := consume W wwrite wflush wclose.
+
+  (* invariant: D = bytes already delivered to the client *)
+  Definition Inv (body : bytes) (st : fstate W) (D : bytes) : Prop :=
+    exists ops, no_close ops /\
+      if f_closed W st
+      then snd (wexec w0 (ops ++ [OC])) = D ++ f_buf W st /\ writes ops = body /\ f_src W st = []
+      else wexec w0 ops = (f_w W st, D ++ f_buf W st) /\ writes ops ++ concat (f_src W st) = body.
+
+  Lemma firstn_skipn_app (n : nat) (D l : bytes) : (D ++ firstn n l) ++ skipn n l = D ++ l.
+  Proof. rewrite <- app_assoc, firstn_skipn. reflexivity. Qed.
+
+  Lemma fread_step body flush st p D st' c out eof :
+    0 < flush -> Inv body st D -> fread flush st p = (st', c, out, eof) ->
+    Inv body st' (D ++ out) /\ (eof = true -> f_closed W st' = true /\ f_buf W st' = [] /\ out = []).
+  Proof.
+    intros Hf [ops [Hnc HI]]. unfold fread, filter_read.
+    destruct (f_closed W st) eqn:EC.
+    - (* already closed: the source is empty, nothing is written any more *)
+      destruct HI as [Hout [Hw Hsrc]]. rewrite Hsrc. cbn [take_n write_all]. 
+      change (total []) with 0. cbn [Z.eqb negb]. rewrite !app_nil_r.
+      intros Heq. inversion Heq; subst st' c out eof; clear Heq. split.
+      + exists ops. split; [exact Hnc|]. cbn [f_closed f_buf f_src]. rewrite firstn_skipn_app. auto.
+      + cbn [f_closed f_buf]. destruct (f_buf W st); [|discriminate]. intros _. 
+        rewrite firstn_nil, skipn_nil. auto.
+    - destruct HI as [Hex Hbody].
+      pose proof (take_n_concat (f_src W st) flush) as Hcat.
+      pose proof (take_n_zero (f_src W st) flush Hf) as Hzero.
+      destruct (take_n flush (f_src W st)) as [pieces rest]. cbn [fst snd] in Hcat, Hzero.
+      rewrite write_all_wexec. destruct (wexec (f_w W st) (map OW pieces)) as [w1 o1] eqn:EW.
+      assert (Hex1 : wexec w0 (ops ++ map OW pieces) = (w1, (D ++ f_buf W st) ++ o1)).
+      { rewrite wexec_app, Hex, EW. reflexivity. }
+      destruct (total pieces =? 0) eqn:Ec; cbn [negb].
+      + (* source exhausted: close the writer *)
+        apply Z.eqb_eq in Ec. destruct (Hzero Ec) as [Hrest Hnil]. 
+        destruct (wclose w1) as [w2 o2] eqn:ECl.
+        intros Heq. inversion Heq; subst st' c out eof; clear Heq. split.
+        * exists (ops ++ map OW pieces). split; [apply Forall_app; split; [exact Hnc|apply no_close_OW]|].
+          cbn [f_closed f_buf f_src]. rewrite firstn_skipn_app. split; [|split].
+          -- rewrite wexec_app, Hex1. cbn [wexec wstep]. rewrite ECl. cbn [snd]. rewrite app_nil_r, <- !app_assoc. reflexivity.
+          -- rewrite writes_app, writes_OW. rewrite Hnil in Hbody. rewrite app_nil_r in Hbody.
+             rewrite Hnil in Hcat. apply app_eq_nil in Hcat. destruct Hcat as [Hp _]. rewrite Hp, app_nil_r. exact Hbody.
+          -- exact Hrest.
+        * cbn [f_closed f_buf]. intros He. destruct (f_buf W st ++ o1 ++ o2) eqn:Eb; [|discriminate].
+          rewrite firstn_nil, skipn_nil. auto.
+      + (* some bytes were compressed: flush *)
+        destruct (wflush w1) as [w2 o2] eqn:EFl.
+        intros Heq. inversion Heq; subst st' c out eof; clear Heq. split.
+        * exists (ops ++ map OW pieces ++ [OF]). split.
+          { apply Forall_app; split; [exact Hnc|]. apply Forall_app; split; [apply no_close_OW|]. constructor; [discriminate|constructor]. }
+          cbn [f_closed f_buf f_src f_w]. rewrite firstn_skipn_app. split.
+          -- rewrite app_assoc, wexec_app, Hex1. cbn [wexec wstep]. rewrite EFl. rewrite app_nil_r, <- !app_assoc. reflexivity.
+          -- rewrite !writes_app, writes_OW. unfold writes at 2. cbn [map concat]. rewrite !app_nil_r.
+             rewrite <- Hbody, <- Hcat, app_assoc. reflexivity.
+        * intros He. exfalso. destruct (f_buf W st ++ o1 ++ o2) eqn:Eb; [|discriminate].
+          apply app_eq_nil in Eb. destruct Eb as [_ Eb]. apply app_eq_nil in Eb. destruct Eb as [_ Eb].
+          apply (flush_emits w1). rewrite EFl. exact Eb.
+  Qed.
+
+  (* the consumer reads until EOF: everything it received decompresses to the source body *)
+  Lemma consume_ok body flush : 0 < flush -> forall ps st D cs outs,
+    Inv body st D -> cons_ flush st ps = (cs, outs, true) -> decomp (D ++ outs) = Some body.
+  Proof.
+    intros Hf. induction ps as [|p r IH]; intros st D cs outs HI Hc; [discriminate|].
+    unfold cons_ in Hc. cbn [consume] in Hc. fold fread in Hc.
+    destruct (fread flush st p) as [[[st' c] out] eof] eqn:ER.
+    destruct (fread_step body flush st p D st' c out eof Hf HI ER) as [HI' Heof].
+    destruct eof.
+    - inversion Hc; subst; clear Hc. destruct (Heof eq_refl) as [Hcl [Hb Ho]].
+      destruct HI' as [ops [Hnc H]]. rewrite Hcl in H. destruct H as [Hout [Hw _]].
+      rewrite Hb, Ho in Hout. rewrite !app_nil_r in Hout. rewrite app_nil_r. rewrite <- Hout, <- Hw. apply codec_ok. exact Hnc.
+    - fold cons_ in Hc. destruct (cons_ flush st' r) as [[cs' outs'] e] eqn:EC. inversion Hc; subst; clear Hc.
+      rewrite app_assoc. eapply IH; [exact HI'|exact EC].
+  Qed.
+
+  Theorem decodes_to_original_sec : forall chunks flush ps cs outs,
+    0 < flush ->
+    cons_ flush {| f_src := chunks; f_w := w0; f_buf := []; f_closed := false |} ps = (cs, outs, true) ->
+    decomp outs = Some (concat chunks).
+  Proof.
+    intros chunks flush ps cs outs Hf Hc.
+    change outs with ([] ++ outs).
+    eapply (consume_ok (concat chunks) flush Hf ps); [|exact Hc].
+    exists []. split; [constructor|]. cbn. auto.
+  Qed.
+End CodecProofs.
+
+(* each Read consumes min(flushSize, what is left) bytes of the source, whatever the chunking *)
+Lemma take_n_total : forall chunks n, 0 <= n -> total (fst (take_n n chunks)) = Z.min n (total chunks).
+Proof.
+  induction chunks as [|ch r IH]; intros n Hn; cbn [take_n].
+  - cbn. lia.
+  - pose proof (blen_nonneg ch) as Hc. assert (Ht : 0 <= total r) by apply blen_nonneg.
+    destruct (n <=? 0) eqn:E.
+    + cbn [fst]. rewrite total_cons. change (total []) with 0. lia.
+    + destruct (blen ch <=? n) eqn:E2.
+      * specialize (IH (n - blen ch)). destruct (take_n (n - blen ch) r) as [ps rest]. cbn [fst] in *.
+        rewrite !total_cons, IH by lia. lia.
+      * cbn [fst]. rewrite !total_cons. change (total []) with 0. unfold blen in *. rewrite firstn_length. lia.
+Qed.
+
+(* ---------- a concrete codec satisfying the two hypotheses (non-vacuity of the Section) ----------
+   Write emits every byte x as [1; x], Flush emits [0], Close emits [2]. *)
+Definition enc1 (b : bytes) : bytes := flat_map (fun x => [1; x]) b.
+Definition t_write (w : unit) (b : bytes) : unit * bytes := (tt, enc1 b).
+Definition t_flush (w : unit) : unit * bytes := (tt, [0]).
+Definition t_close (w : unit) : unit * bytes := (tt, [2]).
+Fixpoint t_decomp_fuel (n : nat) (l : bytes) : option bytes :=
+  match n with
+  | O => None
+  | S n' => match l with
+            | [2] => Some []
+            | 0 :: r => t_decomp_fuel n' r
+            | 1 :: x :: r => option_map (cons x) (t_decomp_fuel n' r)
+            | _ => None
+            end
+  end.
+Definition t_decomp (l : bytes) : option bytes := t_decomp_fuel (S (length l)) l.
+
+Lemma t_decomp_write b : forall n rest, (length (enc1 b ++ rest) < n)%nat ->
+  t_decomp_fuel n (enc1 b ++ rest) =
+  option_map (app b) (t_decomp_fuel (n - length b) rest).
+Proof.
+  induction b as [|x b IH]; intros n rest Hn.
+  - unfold enc1. cbn [flat_map app length]. rewrite Nat.sub_0_r. destruct (t_decomp_fuel n rest); reflexivity.
+  - unfold enc1 in *. cbn [flat_map app length] in *. fold (enc1 b) in *. destruct n as [|n]; [lia|]. cbn [t_decomp_fuel].
+    rewrite IH by (cbn [length] in Hn; lia). cbn [Nat.sub].
+    destruct (t_decomp_fuel (n - length b) rest); reflexivity.
+Qed.
+Lemma t_codec_ok_gen : forall ops n, no_close ops -> (length (snd (wexec unit t_write t_flush t_close tt (ops ++ [OC]))) < n)%nat ->
+  t_decomp_fuel n (snd (wexec unit t_write t_flush t_close tt (ops ++ [OC]))) = Some (writes ops).
+Proof.
+  induction ops as [|op r IH]; intros n Hnc Hn.
+  - cbn in *. destruct n as [|n]; [lia|]. reflexivity.
+  - inversion Hnc as [|? ? Hop Hr]; subst. cbn [app wexec] in *.
+    destruct op as [b| |]; [| |contradiction].
+    + cbn [wstep t_write] in *. destruct (wexec unit t_write t_flush t_close tt (r ++ [OC])) as [w2 o2] eqn:E.
+      cbn [snd] in *. rewrite t_decomp_write by exact Hn.
+      rewrite app_length in Hn.
+      assert (Hl : (length b <= length (enc1 b))%nat).
+      { clear. unfold enc1. induction b; cbn [flat_map app length]; lia. }
+      specialize (IH (n - length b)%nat Hr). try rewrite E in IH. cbn [snd] in IH. rewrite IH by lia.
+      unfold writes. cbn [map concat]. reflexivity.
+    + cbn [wstep t_flush] in *. destruct (wexec unit t_write t_flush t_close tt (r ++ [OC])) as [w2 o2] eqn:E.
+      cbn [snd app] in *. destruct n as [|n]; [lia|]. cbn [t_decomp_fuel].
+      specialize (IH n Hr). try rewrite E in IH. cbn [snd] in IH. rewrite IH by (cbn [length] in Hn; lia).
+      unfold writes. cbn [map concat app]. reflexivity.
+Qed.
+Lemma t_codec_ok : forall ops, no_close ops ->
+  t_decomp (snd (wexec unit t_write t_flush t_close tt (ops ++ [OC]))) = Some (writes ops).
+Proof. intros ops H. unfold t_decomp. apply t_codec_ok_gen; [exact H|lia]. Qed.
+Lemma t_flush_emits : forall w, snd (t_flush w) <> [].
+Proof. intros w. discriminate. Qed.
+
+Lemma C54_example_lemma :
+  consume unit t_write t_flush t_close 4
+    {| f_src := [[10; 11; 12]; [13; 14]; [15]]; f_w := tt; f_buf := []; f_closed := false |} [3; 100; 1; 100; 100; 100]
+  = ([4; 2; 0; 0], [1; 10; 1; 11; 1; 12; 1; 13; 0; 1; 14; 1; 15; 0; 2], true)
+  /\ t_decomp [1; 10; 1; 11; 1; 12; 1; 13; 0; 1; 14; 1; 15; 0; 2] = Some [10; 11; 12; 13; 14; 15].
+Proof. vm_compute. auto. Qed.
+
+(* ---------- the property predicate holds of the model on every well-shaped input ---------- *)
+Lemma as_LB_vLB cs : as_LB (vLB cs) = Some cs.
+Proof.
+  unfold as_LB, vLB. induction cs as [|c r IH]; [reflexivity|]. cbn [map all_some as_B]. rewrite IH. reflexivity.
+Qed.
+Lemma bytes_eqb_refl l : bytes_eqb l l = true.
+Proof. apply bytes_eqb_eq. reflexivity. Qed.
+
+Lemma prop_of_model_filter codec level flush cs p :
+  let i := VL [VZ 1; VZ codec; VZ level; VZ flush; vLB cs; VZ p] in prop_C54 i (run_C54 i) = true.
+Proof.
+  cbn [prop_C54 run_C54]. rewrite as_LB_vLB. cbn [prop_C54]. rewrite ?as_LB_vLB. cbn. rewrite bytes_eqb_refl. reflexivity.
+Qed.
+
+Lemma prop_of_model_handler cmd has_rule ae cenc has_cl level flush body :
+  let i := VL [VZ 2; VZ cmd; VZ has_rule; VB ae; VB cenc; VZ has_cl; VZ level; VZ flush; VB body] in
+  prop_C54 i (run_C54 i) = true.
+Proof.
+  cbn [prop_C54 run_C54]. unfold handler. rewrite bytes_eqb_refl.
+  destruct (has_token ae GZIP) eqn:G; destruct (has_token ae BR) eqn:B;
+  destruct (bytes_eqb cenc []) eqn:E1; destruct (bytes_eqb cenc IDENTITY) eqn:E2;
+  destruct (has_rule =? 0) eqn:R; destruct (has_cl =? 0) eqn:L;
+  destruct (cmd =? 0) eqn:C0; destruct (cmd =? 1) eqn:C1;
+  cbn; rewrite ?bytes_eqb_refl, ?G, ?B, ?E1, ?E2, ?R, ?L, ?C0, ?C1; cbn; try reflexivity;
+  try (apply Z.eqb_eq in C0; apply Z.eqb_eq in C1; lia).
 Qed.
